@@ -31,8 +31,9 @@ def gen_fn_cases(rng, n):
         elif r < 0.16:
             argv = []
         else:
-            cnt = rng.choice([1, 1, 2, 3, 5, 17, 100, 2000])
-            argv = [rb(rng, rng.choice([0, 0, 1, 2, 7, 40])) for _ in range(cnt)]
+            # thousands of entries only now and then: the extracted model is quadratic in the joined length
+            cnt = rng.choice([600, 2000, 5000]) if rng.random() < 0.012 else rng.choice([1, 1, 2, 3, 5, 17, 100])
+            argv = [rb(rng, rng.choice([0, 0, 1, 2, 7, 40] if cnt < 600 else [0, 0, 0, 1, 3])) for _ in range(cnt)]
         tot = (sum(len(a) for a in argv) + len(argv) - 1) if argv else (len(file) if file is not None else 9)
         sz = rng.choice([1, 2, 3, 4, 5, max(1, tot - 1), max(1, tot), tot + 1, tot + 2, 256, 2048, tot + 100])
         if file is None and (argv is None or argv == []):
@@ -74,7 +75,7 @@ def check(run):
     exe = build_impl(run)
     rng = run.rng
     # ---- function level
-    fcases = gen_fn_cases(rng, 1500 if run.tier == "quick" else 40000)
+    fcases = gen_fn_cases(rng, 1500 if run.tier == "quick" else 12000)
     res = corr_stream(run, AREA, exe, fcases, stream="fn")
     for (i, c, m, im) in res["mismatch"][:1]:
         f = c.split("\t")
